@@ -391,35 +391,43 @@ Record srun := mkRun {
   r_final : list (node * option Z)        (* observed current_value of every variable computation *)
 }.
 
-Inductive case :=
-| CFunnel (calls : list fcall)                                  (* any algorithm: one computation's calls *)
-| CTuto (r : srun) (evs : list (node * list (bool * list bool)))
-| CAdsa (r : srun) (variant prob : Z) (evs : list (node * list (bool * bool * list bool)))
-| CGdba (r : srun) (evs : list (node * list (Z * list bool))).
+Inductive amodel :=
+| ANone                                                          (* funnel only *)
+| ATuto (r : srun) (evs : list (node * list (bool * list bool)))
+| AAdsa (r : srun) (variant prob : Z) (evs : list (node * list (bool * bool * list bool)))
+| AGdba (r : srun) (evs : list (node * list (Z * list bool))).
+
+(* one run of one algorithm: the value_selection calls of every variable computation (any
+   algorithm), and for dsatuto / adsa / gdba the whole run against the selection-only model *)
+Record case := mkCase { c_funnel : list (list fcall); c_model : amodel }.
 
 Definition final_ok {St} (val : St -> option Z) (st : node -> St) (l : list (node * option Z)) : bool :=
   forallb (fun q => oz_eqb (val (st (fst q))) (snd q)) l.
 
-Definition check_case (c : case) : bool :=
-  match c with
-  | CFunnel calls => fun_replay fun_init calls
-  | CTuto r evs =>
+Definition ev_node (e : sev) : node := match e with SSel n _ => n | SFin n => n | SErr n _ => n end.
+
+Definition check_model (m : amodel) : bool :=
+  match m with
+  | ANone => true
+  | ATuto r evs =>
       let P := dsatuto_proto (assoc [] (r_dom r)) (assoc [] (r_nbrs r)) (assoc [] (r_orc r)) (assoc [] evs) in
       let '(cf, _) := run P (r_sched r) in
       (* the mixin's own events are C08's; the selections are in the ghost logs, per node *)
       forallb (fun q => list_eqb sev_eqb (t_log (ast (w_st (nodes cf (fst q)))))
-                                         (filter (fun e => match e with SSel n _ | SFin n | SErr n _ => n =? fst q end)
-                                                 (r_events r)))
+                                         (filter (fun e => ev_node e =? fst q) (r_events r)))
               (r_final r)
       && final_ok (fun s => t_val (ast s)) (fun n => w_st (nodes cf n)) (r_final r)
-  | CAdsa r variant prob evs =>
+  | AAdsa r variant prob evs =>
       let P := adsa_proto (assoc [] (r_dom r)) (assoc [] (r_nbrs r)) (assoc None (r_iso r))
                           (assoc [] (r_orc r)) variant prob (assoc [] evs) in
       let '(cf, e) := run P (r_sched r) in
       list_eqb sev_eqb e (r_events r) && final_ok a_val (fun n => w_st (nodes cf n)) (r_final r)
-  | CGdba r evs =>
+  | AGdba r evs =>
       let P := gdba_proto (assoc [] (r_dom r)) (assoc None (r_init r)) (assoc [] (r_nbrs r)) (assoc None (r_iso r))
                           (r_max r) (assoc [] (r_orc r)) (assoc [] evs) in
       let '(cf, e) := run P (r_sched r) in
       list_eqb sev_eqb e (r_events r) && final_ok g_val (fun n => w_st (nodes cf n)) (r_final r)
   end.
+
+Definition check_case (c : case) : bool :=
+  forallb (fun_replay fun_init) (c_funnel c) && check_model (c_model c).
